@@ -188,6 +188,18 @@ impl Prop for C01 {
                 }
             }
         }));
+        v.push(Scope::new("legend-after-unicode", "every string up to length 3 over {a, é, 一, 𝔘 and the characters whose lower- or upper-case form has another UTF-8 length: K (Kelvin), Ω (Ohm), Å (Angstrom), İ, ß, ẞ, ŉ, ﬁ} as the drawing in front of a legend (offsets into a case-folded or otherwise transformed copy of the input do not fit the input)", |f| {
+            let al = ['a', 'é', '一', '𝔘', '\u{212a}', '\u{2126}', '\u{212b}', '\u{130}', 'ß', '\u{1e9e}', '\u{149}', '\u{fb01}'];
+            enumr::strings_upto(&al, 3, &mut |st| {
+                let t: String = st.iter().collect();
+                if t.is_ascii() {
+                    return;
+                }
+                f(Case::s(format!("{}\n# Legend:\na = {{fill:red}}\n", t)));
+                f(Case::s(format!("300 {} café # Legend:", t)));
+                f(Case::s(format!("{}\n# legend:\na = {{fill:red}}", t)));
+            })
+        }));
         v.push(Scope::new("brace-strings", "every string over {{,},a,comma,*,space} up to length 5, alone and inside a box", |f| {
             enumr::strings_upto(&['{', '}', 'a', ',', '*', ' '], 5, &mut |s| {
                 let t: String = s.iter().collect();
